@@ -54,6 +54,15 @@ def cbytes(b):
     return "[" + ";".join("x%02x" % x for x in bytes(b)) + "]" if b else "(@nil byte)"
 
 
+def cprefix(pfx, text):
+    """the bytes before the rows, printed with the pformat text shared (literal compression only: the split is
+    checked byte-for-byte here)"""
+    k = pfx.find(text) if text else -1
+    if k >= 0 and pfx[:k] + text + pfx[k + len(text):] == pfx and k <= 64 and len(pfx) - k - len(text) <= 16:
+        return "(%s ++ d ++ %s)" % (cbytes(pfx[:k]), cbytes(pfx[k + len(text):]))
+    return cbytes(pfx)
+
+
 def cfield(f):
     name, ts, shape = f
     return "(fld %s %s %s %s [%s])" % (cbytes(name.encode()), cbytes(ts[0].encode()), cbytes(ts[1].encode()),
@@ -523,7 +532,9 @@ class SFileEntry(Entry):
         self.nmonitored = 0
 
     def cases(self, ctx, round=0):
-        cs = table_cases(ctx, round, ctx.n(36, 1100), grid=self.grid)
+        # thorough: at most 400 cases per entry = ONE coqc of ~0.8 GB at a time (the machine is shared; case files of this
+        # entry carry the header text and the rows as literals)
+        cs = table_cases(ctx, round, ctx.n(36, 300), grid=self.grid)
         for c in cs:
             c["via"] = ctx.rng.choice(["read", "slice"])
         return cs
@@ -600,7 +611,7 @@ class SFileEntry(Entry):
         tail = b"".join(bytes.fromhex(x) for x in rows)
         if tail and fileb.endswith(tail):
             pfx = fileb[:len(fileb) - len(tail)]
-            lets.append("let pfx := %s in" % cbytes(pfx))
+            lets.append("let pfx := %s in" % cprefix(pfx, text))
             cfile = "(pfx ++ concat rows)"
         else:
             pfx = None
@@ -611,6 +622,8 @@ class SFileEntry(Entry):
                 return "pfx"
             if b == text:
                 return "d"
+            if text and b == text.replace(b"\n", b" "):
+                return "(nl2sp d)"
             return cbytes(b)
         scan = out["scan"]
         cscan = "(Ok (%s, %s))" % (shared(bytes.fromhex(scan[1][0])), cz(scan[1][1])) if scan[0] == "ok" else "(Err %s)" % scan[1]
@@ -759,7 +772,7 @@ class Region(Entry):
     name = "sfile_region"
 
     def cases(self, ctx, round=0):
-        cs = table_cases(ctx, round, ctx.n(25, 700), layouts=False, grid=(0, 3))
+        cs = table_cases(ctx, round, ctx.n(25, 320), layouts=False, grid=(0, 3))
         for c in cs:
             c["nrows"] = ctx.rng.choice(["absent", "exact"])
         return cs
@@ -797,15 +810,16 @@ class Region(Entry):
         rows = c["rows"]
         fileb = bytes.fromhex(out["file"])
         tail = b"".join(bytes.fromhex(x) for x in rows)
+        text = (out["text"] or "").encode()
         if tail and fileb.endswith(tail):
-            cfile = "(%s ++ concat rows)" % cbytes(fileb[:len(fileb) - len(tail)])
+            cfile = "(%s ++ concat rows)" % cprefix(fileb[:len(fileb) - len(tail)], text)
         else:
             cfile = cbytes(fileb)
         rd = out["read"]
         cout = "(Ok (%s, %s))" % (cdtype(rd[1]["dtype"] or []), crows(rd[1]["rows"], (rows, "rows"))) if rd[0] == "ok" else "(Err %s)" % rd[1]
         nr = len(rows) if c.get("nrows") == "exact" else None
-        return "let rows := %s in v_region %s %s rows %s %s %s %s" % (
-            crows(rows), cbytes((out["text"] or "").encode()), cdtype(c["dtype"]), copt(nr), cfile, cz(out["offset"]), cout)
+        return "let rows := %s in let d := %s in v_region d %s rows %s %s %s %s" % (
+            crows(rows), cbytes(text), cdtype(c["dtype"]), copt(nr), cfile, cz(out["offset"]), cout)
 
     def nontrivial(self, c, out):
         return bool(c.get("adv")) or (len(c["dtype"]) >= 2 and len(c["rows"]) >= 2 and any(int(ts[2:]) > 1 for _, ts, _ in c["dtype"]))
